@@ -203,7 +203,7 @@ type c06Obs struct {
 
 func c06Prop(t vpT, c c06Case) (nontrivial bool, classes []string) {
 	s := &c.S
-	if len(s.Rows) == 0 || s.Budget < 1 {
+	if len(s.Rows) == 0 || s.Budget < 0 {
 		return false, nil
 	}
 	h := vpsampNewHarness(s)
@@ -495,7 +495,7 @@ func c06Gen() *rapid.Generator[c06Case] {
 	if os.Getenv("VERIF_TIER") == "thorough" {
 		maxRows = 400
 	}
-	g := vpsampGen(vpsampGenCfg{MaxRows: maxRows})
+	g := vpsampGen(vpsampGenCfg{MaxRows: maxRows, ZeroMode: true})
 	return rapid.Custom(func(t *rapid.T) c06Case { return c06Case{S: g.Draw(t, "bucket")} })
 }
 
